@@ -110,6 +110,9 @@ package evaluator
 //@   modifies contents(env.store)
 
 //@ func (e *Evaluator) evalIfStmt
+//@   call Eval#1: bind thenResult
+//@   call Eval#4: bind elseResult
+//@   goal then-result-is-passed-through: !isErr(result) && truthy(condition) && len(node.Alternatives) == 0 ==> result == thenResult
 //@   call Eval#0: assert condition-first: arg1 == node.Condition && arg2 == env
 //@   call Eval#1: assert then-only-if-truthy: truthy(condition) && arg1 == iface(node.Consequence) && arg2 == newEnv
 //@   call Eval#2: assert next-condition-only-if-previous-falsy: !truthy(condition) && arg1 == alt.Condition && arg2 == env
@@ -179,6 +182,8 @@ package evaluator
 //@   modifies contents(env.store)
 
 //@ func (e *Evaluator) evalForStmt
+//@   call Eval#2: bind elseResult
+//@   goal else-result-is-passed-through: node.Condition != nil && !isErr(cond__0) && !truthy(cond__0) && node.Alternative != nil && !isErr(init) ==> result == elseResult
 //@   call newError#*: assert error-carries-the-construct: arg1 == iface(node)
 //@   call NewEnclosedEnv#0: assert loop-scope-encloses-the-caller: arg0 == env
 //@   call Eval#0: assert init-in-loop-scope: arg1 == node.Init && arg2 == newEnv
@@ -195,6 +200,8 @@ package evaluator
 //@   modifies contents(env.store)
 
 //@ func (e *Evaluator) evalEachStmt
+//@   call Eval#1: bind elseResult
+//@   goal else-result-is-passed-through: !isErr(arrObj) && istype(arrObj, *object.Array) && elemsLen == 0 && node.Alternative != nil ==> result == elseResult
 //@   call newError#*: assert error-carries-the-construct: arg1 == iface(node)
 //@   call NewEnclosedEnv#0: assert loop-scope-encloses-the-caller: arg0 == env
 //@   call Eval#1: assert else-iff-empty: elemsLen == 0 && arg1 == iface(node.Alternative) && arg2 == newEnv
